@@ -412,6 +412,27 @@ static int pad_pkcs1(bn_t m, size_t *p_len, size_t m_len, size_t k_len,
 #if CP_RSAPD == PKCS2
 
 /**
+ * Adds a mask to a data block as bit strings: c = c XOR t, normalized.
+ *
+ * @param[in,out] c		- the data block.
+ * @param[in] t			- the mask.
+ */
+static void pad_xor(bn_t c, const bn_t t) {
+	/* The data block may have fewer significant digits than the mask. */
+	bn_grow(c, t->used);
+	for (size_t i = c->used; i < t->used; i++) {
+		c->dp[i] = 0;
+	}
+	if (c->used < t->used) {
+		c->used = t->used;
+	}
+	for (size_t i = 0; i < t->used; i++) {
+		c->dp[i] ^= t->dp[i];
+	}
+	bn_trim(c);
+}
+
+/**
  * Applies or removes a PKCS#1 v2.1 encryption padding.
  *
  * @param[out] m		- the buffer to pad.
@@ -451,9 +472,7 @@ static int pad_pkcs2(bn_t m, size_t *p_len, size_t m_len, size_t k_len,
 				rand_bytes(h1, RLC_MD_LEN);
 				md_mgf(mask, k_len - RLC_MD_LEN - 1, h1, RLC_MD_LEN);
 				bn_read_bin(t, mask, k_len - RLC_MD_LEN - 1);
-				for (int i = 0; i < t->used; i++) {
-					m->dp[i] ^= t->dp[i];
-				}
+				pad_xor(m, t);
 				bn_write_bin(mask, k_len - RLC_MD_LEN - 1, m);
 				md_mgf(h2, RLC_MD_LEN, mask, k_len - RLC_MD_LEN - 1);
 				for (int i = 0; i < RLC_MD_LEN; i++) {
@@ -480,9 +499,7 @@ static int pad_pkcs2(bn_t m, size_t *p_len, size_t m_len, size_t k_len,
 					}
 					md_mgf(mask, k_len - RLC_MD_LEN - 1, h1, RLC_MD_LEN);
 					bn_read_bin(t, mask, k_len - RLC_MD_LEN - 1);
-					for (int i = 0; i < t->used; i++) {
-						m->dp[i] ^= t->dp[i];
-					}
+					pad_xor(m, t);
 					m_len -= RLC_MD_LEN;
 					bn_rsh(t, m, 8 * m_len);
 					bn_write_bin(h2, RLC_MD_LEN, t);
@@ -547,9 +564,7 @@ static int pad_pkcs2(bn_t m, size_t *p_len, size_t m_len, size_t k_len,
 					bn_write_bin(h1, RLC_MD_LEN, t);
 					md_mgf(mask, k_len - RLC_MD_LEN - 1, h1, RLC_MD_LEN);
 					bn_read_bin(t, mask, k_len - RLC_MD_LEN - 1);
-					for (int i = 0; i < t->used; i++) {
-						m->dp[i] ^= t->dp[i];
-					}
+					pad_xor(m, t);
 					m->dp[0] ^= 0x01;
 					for (int i = m_len - 1; i < 8 * k_len; i++) {
 						bn_set_bit(m, i - ((RLC_MD_LEN + 1) * 8), 0);
